@@ -46,7 +46,23 @@ CHECK_DEADLOCK FALSE
 BODY = {"": b"", "a": b"int x;\n", "b": b"int y;\n", "ab": b"int x;\n\n", "A": b"int X;\n", "an": b"int x;", "ac": b"int x;\r\n"}
 
 
-def materialise(case, d, two_dirs=False):
+# "big" rendering: every non-empty content is a 70 KiB text that is the SAME for all contents except for one byte
+# near its end, so distinct contents have equal size, an equal first 64 KiB (and equal timestamps): nothing short of
+# reading the files to the end tells them apart
+PAD = (b"/* " + b"=" * 66 + b" */\n") * 1000
+BIGTAG = {}
+
+
+def big_body(content):
+    if content == "":
+        return b""
+    if content not in BIGTAG:
+        BIGTAG[content] = "xyzwuvrst"[len(BIGTAG) % 9] + str(len(BIGTAG) // 9 or "")
+    t = BIGTAG[content]
+    return PAD + f"int {t:<4};\n".encode()
+
+
+def materialise(case, d, two_dirs=False, big=False):
     """two_dirs: the code base consists of TWO directories, d and d + "-legacy" (the first a character prefix of
     the second)"""
     paths = {}
@@ -65,7 +81,8 @@ def materialise(case, d, two_dirs=False):
             os.link(paths[f["target"]], p)
         else:
             with open(p, "wb") as fh:
-                fh.write(BODY[f["content"]] if f["content"] in BODY else f"int {f['content']};\n".encode())
+                fh.write(big_body(f["content"]) if big else
+                         BODY[f["content"]] if f["content"] in BODY else f"int {f['content']};\n".encode())
             # identical timestamps, as after extracting an archive: equal size + equal mtime must
             # not be mistaken for equal content
             os.utime(p, (1_600_000_000, 1_600_000_000))
@@ -89,18 +106,25 @@ def check_chunk(args):
     from codebasin import CodeBase, report
     fails = []
     stats = {"evals": 0, "nontrivial": 0}
+    todo = []
     for case in cases:
+        todo.append((case, False))
+        # the same code base once more with large contents that differ only in a late byte (where that says anything:
+        # at least two non-empty regular files, at most 8 files)
+        if len(case["files"]) <= 8 and sum(1 for f in case["files"] if f["kind"] in ("reg", "excl", "nosrc") and f["content"]) >= 2:
+            todo.append((case, True))
+    for case, big in todo:
         core.tick(case, 300)
         d = tempfile.mkdtemp(prefix="c16-", dir=workdir)
         try:
             root = os.path.join(d, "root")
             os.makedirs(root)
-            paths = materialise(case, root, two_dirs=True)
+            paths = materialise(case, root, two_dirs=True, big=big)
             inv = {os.path.abspath(p): i for i, p in paths.items()}
             want = {frozenset(g) for g in case["groups"]}
             if want:
                 stats["nontrivial"] += 1
-            tg = tags_of(case)
+            tg = tags_of(case) | ({"content.big"} if big else set())
             stats["evals"] += 1
             try:
                 cb = CodeBase(root, root + "-legacy", exclude_patterns=["/excl/"])   # anchored at each code-base directory
@@ -118,7 +142,7 @@ def check_chunk(args):
                 continue
             if len(got) != len(got_sets) or got_sets != want:
                 fails.append(dict(layer="G", tags=sorted(tg), symptom="groups-differ",
-                                  detail=f"files={case['files']} find_duplicates={sorted(map(sorted, got_sets), key=str)} "
+                                  detail=f"big={big} files={case['files']} find_duplicates={sorted(map(sorted, got_sets), key=str)} "
                                          f"reference={sorted(map(sorted, want))}", case=case))
                 continue
             printed = {inv.get(os.path.abspath(x.strip())) for x in re.findall(r"^- (.*)$", text, re.M)}
@@ -164,7 +188,8 @@ def run(ctx):
         raise core.MachineryError("no code bases generated")
     ctx.cov["rule"] = (
         "every code base of N files whose contents come from a pool with an empty file, a one-line file, the same line "
-        "plus a trailing newline (differs in length only) and the same line with one byte changed, each file regular, a "
+        "plus a trailing newline (differs in length only) and the same line with one byte changed (and, a second time, with "
+        "70 KiB contents of equal size and equal timestamps that differ in one byte near the end), each file regular, a "
         "symlink or hard link to an earlier regular file, excluded by pattern, or with a non-source extension; the "
         "reference groups are the byte-equality classes of size >= 2 among regular files and hard links; "
         "report.find_duplicates and the printed Duplicates section are compared with them. "
